@@ -1,0 +1,30 @@
+//go:build verif
+
+// Contracts for package common, read by the govc verification-condition generator in /verif.
+// Comments only.
+
+package common
+
+// nudgedOK(points, i, w, h, old value): element i is untouched or was pulled onto the image edge
+//@ pred inImg(v real, i int, w int, h int) = (i % 2 == 0 && (v == 0.0 || v == real(w - 1))) || (i % 2 == 1 && (v == 0.0 || v == real(h - 1)))
+
+//@ func GridSampler_checkAndNudgePoints(image *gozxing.BitMatrix, points []float64) (e error)
+//@   property C19 C06
+//@   requires image != nil && gozxing.wfBM(image) && len(points) % 2 == 0
+//@   requires forall i int :: 0 <= i && i < len(points) ==> -1000000000.0 < points[i] && points[i] < 1000000000.0
+//@   ensures e != nil ==> implements(e, gozxing.NotFoundException)
+//@   ensures forall i int :: 0 <= i && i < len(points) ==> points[i] == old(points[i]) || inImg(points[i], i, image.width, image.height)
+//@   ensures e == nil && len(points) >= 2 && len(points) % 2 == 0 ==> 0 <= trunc(points[0]) && trunc(points[0]) < image.width && 0 <= trunc(points[1]) && trunc(points[1]) < image.height
+//@   ensures e == nil && len(points) >= 2 && len(points) % 2 == 0 ==> 0 <= trunc(points[len(points)-2]) && trunc(points[len(points)-2]) < image.width && 0 <= trunc(points[len(points)-1]) && trunc(points[len(points)-1]) < image.height
+//@   modifies points[*]
+//@   loop 0: invariant width == image.width && height == image.height && maxOffset == len(points) - 1 && 0 <= offset && offset % 2 == 0 && (offset == 0 ==> nudged)
+//@   loop 0: invariant forall i int :: 0 <= i && i < len(points) ==> points[i] == old(points[i]) || inImg(points[i], i, width, height)
+//@   loop 0: invariant forall i int :: 0 <= i && i < len(points) ==> -1000000000.0 < points[i] && points[i] < 1000000000.0
+//@   loop 0: invariant offset >= 2 && len(points) % 2 == 0 ==> 0 <= trunc(points[0]) && trunc(points[0]) < width && 0 <= trunc(points[1]) && trunc(points[1]) < height
+//@   loop 0: decreases len(points) - offset
+//@   loop 1: invariant width == image.width && height == image.height && -2 <= offset && offset <= len(points) - 2 && (len(points) - offset) % 2 == 0 && (offset == len(points) - 2 ==> nudged)
+//@   loop 1: invariant forall i int :: 0 <= i && i < len(points) ==> points[i] == old(points[i]) || inImg(points[i], i, width, height)
+//@   loop 1: invariant forall i int :: 0 <= i && i < len(points) ==> -1000000000.0 < points[i] && points[i] < 1000000000.0
+//@   loop 1: invariant len(points) >= 2 && len(points) % 2 == 0 ==> 0 <= trunc(points[0]) && trunc(points[0]) < width && 0 <= trunc(points[1]) && trunc(points[1]) < height
+//@   loop 1: invariant offset <= len(points) - 4 && len(points) % 2 == 0 ==> 0 <= trunc(points[len(points)-2]) && trunc(points[len(points)-2]) < width && 0 <= trunc(points[len(points)-1]) && trunc(points[len(points)-1]) < height
+//@   loop 1: decreases offset + 2
